@@ -292,6 +292,13 @@ def fama_model(g, n):
     names = g.names(n, ("plain", "space", "punct", "nonascii", "keyword", "xmlspecial"))
     root = g.tree(n, names=names, kinds=("mandatory", "optional", "alternative", "or", "card", "mutex", "nn", "zero"),
                   abstract=False)
+    if rng.random() < 0.2:
+        # a wide group whose bounds have different numbers of digits ([2..10], [9..12], ...)
+        leaf = rng.choice([f for f in spec.spec_features(root) if not f["rels"]])
+        k = rng.randint(10, 13)
+        lo = rng.randint(2, 9)
+        leaf["rels"].append(spec.R(lo, rng.randint(10, k), [spec.F(f"{leaf['name']}_w{j}") for j in range(k)]))
+        g.count("fama_choice", "wide-group-multi-digit-bounds")
     fnames = [f["name"] for f in spec.spec_features(root)]
     ctcs = []
     for i in range(rng.choice([0, 1, 2, 4])):
